@@ -37,9 +37,15 @@ type answer struct {
 }
 
 type pending struct {
-	check   string
-	q       map[string]any
-	release chan struct{}
+	check    string
+	q        map[string]any
+	release  chan struct{}
+	answered chan given // what the stub really answered (sent just before Authorize returns)
+}
+
+type given struct {
+	answer
+	cancelled bool
 }
 
 type stub struct {
@@ -55,11 +61,17 @@ func (s *stub) Authorize(ctx context.Context, a k8sauth.Attributes) (k8sauth.Dec
 	} else if a.GetName() == s.tier+".*" {
 		check = "wildcard"
 	}
-	p := &pending{check: check, release: make(chan struct{}),
+	p := &pending{check: check, release: make(chan struct{}), answered: make(chan given, 1),
 		q: map[string]any{"verb": a.GetVerb(), "resource": a.GetResource(), "ns": a.GetNamespace(), "name": a.GetName()}}
 	s.arrivals <- p
 	<-p.release
+	if cerr := ctx.Err(); cerr != nil {
+		// like a webhook authorizer: a question whose context was cancelled by the caller is not answered
+		p.answered <- given{answer{"NoOpinion", true}, true}
+		return k8sauth.DecisionNoOpinion, "context cancelled", cerr
+	}
 	ans := s.table[check]
+	p.answered <- given{ans, false}
 	var err error
 	if ans.E {
 		err = errors.New("scripted authorizer error for " + check)
@@ -331,14 +343,14 @@ func runCase(lg *tracelog.Log, rl *raceLog, t int, c map[string]any, rq reqT) {
 			}
 		}
 		delete(pend, k)
-		ans := table[p.check]
-		ev := map[string]any{"check": p.check, "d": ans.D, "e": ans.E}
+		g := runtime.NumGoroutine()
+		close(p.release)
+		ans := <-p.answered
+		ev := map[string]any{"check": p.check, "d": ans.D, "e": ans.E, "cancelled": ans.cancelled}
 		for kk, v := range p.q {
 			ev[kk] = v
 		}
 		lg.Emit("ask", ev)
-		g := runtime.NumGoroutine()
-		close(p.release)
 		// next release only after this checker goroutine has finished (or the call has returned)
 		waitFor(func() bool { gather(); return done || runtime.NumGoroutine() < g }, arrivalWait)
 	}
